@@ -18,7 +18,8 @@ def run_case(c):
         if p.returncode != 0:
             return c, 'PATCH-FAILED', p.stdout[-300:] + p.stderr[-300:]
         env = dict(os.environ, MZK_REPO=d, MZK_EVIDENCE_SUFFIX='.selftest')
-        r = subprocess.run([os.path.join(VERIF, 'check'), c['property']], capture_output=True, text=True, env=env, cwd=VERIF)
+        # tier 'thorough': the change is visible under an alternative feature configuration only (the nested run skips the suites: MZK_REPO is set)
+        r = subprocess.run([os.path.join(VERIF, 'check'), c['property']] + (['--tier', 'thorough'] if c.get('tier') == 'thorough' else []), capture_output=True, text=True, env=env, cwd=VERIF)
         out = r.stdout + r.stderr
         if 'CHECK-ERROR' in out:
             return c, 'CHECK-ERROR', out[-600:]
@@ -81,7 +82,7 @@ def load_cases(prop=None):
         if os.path.exists(mp):
             m = json.load(open(mp))
             if m.get('reported_by') and m['reported_by'] != 'MISSED':
-                cases.append(dict(patch=os.path.join(sd, pid, 'patch.diff'), property=m['property'], expect='[' + m['reported_by'].split(',')[0] + ']'))
+                cases.append(dict(patch=os.path.join(sd, pid, 'patch.diff'), property=m['property'], expect='[' + m['reported_by'].split(',')[0] + ']', tier=m.get('tier', 'quick')))
     if prop:
         cases = [c for c in cases if c['property'] == prop]
     return cases
